@@ -920,6 +920,7 @@ int parse_instruction_tms340(AsmContext *asm_context, char *instr)
               if (offset < -65536 || offset > 65534)
               {
                 print_error_range(asm_context, "Displacement", -65536, 65534);
+                return -1;
               }
 
               extra[extra_count++] = (offset >> 1) & 0xffff;
@@ -948,6 +949,7 @@ int parse_instruction_tms340(AsmContext *asm_context, char *instr)
               if (offset < -31 || offset > 31)
               {
                 print_error_range(asm_context, "Displacement", -31, 31);
+                return -1;
               }
 
               if (offset < 0)
